@@ -874,6 +874,14 @@ def serve(conn) -> None:
             locale.setlocale(locale.LC_CTYPE, env.get("locale") or "C.utf8")
         except Exception:  # noqa: BLE001
             pass
+        if env.get("tz"):
+            try:
+                import time as _time  # noqa: PLC0415
+
+                os.environ["TZ"] = env["tz"]
+                _time.tzset()
+            except Exception:  # noqa: BLE001
+                pass
         root = env.get("root")
         if root and os.path.isdir(root) and os.getcwd() != root:
             os.chdir(root)  # every request starts in the run directory
